@@ -36,6 +36,8 @@ type autoRun struct {
 	hist     []string // human-readable timeline for replays
 	seenXid  map[uint32]bool
 	pendingT bool
+	endAt    map[uint32]time.Time // when the reply that ends a transaction's exchange was delivered
+	lateTx   string               // first transmission of a transaction observed after that
 }
 
 func (a *autoRun) eff(s string) {
@@ -44,6 +46,16 @@ func (a *autoRun) eff(s string) {
 	a.hist = append(a.hist, fmt.Sprintf("t=%v eff %s", time.Now().Format("15:04:05.000"), s))
 	a.mu.Unlock()
 }
+// ended: a reply that ends the exchange of this transaction (an acceptable OFFER/ACK, a NAK) is being delivered now.
+func (a *autoRun) ended(xid uint32) {
+	a.mu.Lock()
+	if a.endAt == nil {
+		a.endAt = map[uint32]time.Time{}
+	}
+	a.endAt[xid] = time.Now()
+	a.mu.Unlock()
+}
+
 func (a *autoRun) ev(s string) {
 	a.mu.Lock()
 	a.evs = append(a.evs, s)
@@ -225,9 +237,11 @@ func cliAutoScript(t *testing.T, r *Rng, s *Stream) {
 			}
 			p := mkReply(mt, q.M.Xid, offered, lease, t1o, t2o, Pick(r, "", "nomask"))
 			a.ev("A:" + Hex(p))
+			a.ended(q.M.Xid)
 			seg.Inject(0x0800, wrap(p))
 		case "nack":
 			a.ev("N")
+			a.ended(q.M.Xid)
 			seg.Inject(0x0800, wrap(mkReply(6, q.M.Xid, net.IPv4zero, 0, 0, 0, "")))
 		case "invalid": // replies the client must ignore, then silence until its deadline
 			bad := mkReply(5, q.M.Xid^1, offered, lease, 0, 0, "")
@@ -266,6 +280,13 @@ func cliAutoScript(t *testing.T, r *Rng, s *Stream) {
 			}
 		case 0x0800:
 			q := ParseReq(f.Payload)
+			if q.OK {
+				a.mu.Lock()
+				if te, over := a.endAt[q.M.Xid]; over && time.Since(te) > 200*time.Millisecond && a.lateTx == "" {
+					a.lateTx = fmt.Sprintf("xid %d transmitted again %v after the reply that ended its exchange", q.M.Xid, time.Since(te))
+				}
+				a.mu.Unlock()
+			}
 			if !q.OK || a.seenXid[q.M.Xid] {
 				return
 			}
@@ -395,6 +416,15 @@ func cliAutoScript(t *testing.T, r *Rng, s *Stream) {
 	// ---- monitor: C15 clauses on the observed timeline ----
 	fail := func(sig, what, obsd string) {
 		s.Find(Finding{Property: "C15", Signature: sig, Stream: "cliauto", What: what, Ops: append(hist, op), Observed: obsd})
+	}
+	a.mu.Lock()
+	late := a.lateTx
+	a.mu.Unlock()
+	if late != "" {
+		for _, p := range []string{"C16", "C19"} {
+			s.Find(Finding{Property: p, Signature: "retrans-after-end", Stream: "cliauto", What: "transmissions continue after the exchange ended (the sender of an exchange is still running after the reply that ended it)",
+				Ops: append(hist, op), Observed: late})
+		}
 	}
 	if strings.HasPrefix(res, "fatal") {
 		fail("fatal", "the client died: "+res, res)
